@@ -413,19 +413,33 @@ def execute(plan, ctx):
            for p in problems):
         ctx.probe("unparsable-after:" + ckind)
         return
-    ra = _run_checker(t._check)
-    rb = _run_checker(lambda: checkmod.check(t))
-    ctx.probe("detected-by:" + ("both" if ra == rb == "AssertionError" else
-                                "_check" if ra == "AssertionError" else
-                                "check" if rb == "AssertionError" else
-                                "none"))
-    if ra != "AssertionError" and rb != "AssertionError":
-        raise Violation(
-            dict(base, oracle="corruption-missed", corruption=ckind,
-                 cls=classes[0], _check=ra, check=rb,
-                 problem=problems[0]),
-            "corruption %s at %s: walker says %r; _check() -> %s, check() "
-            "-> %s; shape before %r" % (ckind, pos, problems, ra, rb,
-                                        w0.shape))
+    verdicts = []
+    if stored:
+        # first on connections of their own, where a checker is the very
+        # first thing that touches the damaged tree (every node a ghost: the
+        # walker above loaded the nodes of ITS connection only)
+        ta = SimConnection(st, impl).get(oid)
+        tb = SimConnection(st, impl).get(oid)
+        verdicts.append(("freshly-loaded", _run_checker(ta._check),
+                         _run_checker(lambda: checkmod.check(tb))))
+        ta = tb = None
+    verdicts.append(("loaded", _run_checker(t._check),
+                     _run_checker(lambda: checkmod.check(t))))
+    for state, ra, rb in verdicts:
+        ctx.probe("detected-by:" + (
+            "both" if ra == rb == "AssertionError" else
+            "_check" if ra == "AssertionError" else
+            "check" if rb == "AssertionError" else "none"))
+        if ra != "AssertionError" and rb != "AssertionError":
+            sig = dict(base, oracle="corruption-missed", corruption=ckind,
+                       cls=classes[0], _check=ra, check=rb,
+                       problem=problems[0])
+            if state != "loaded":
+                sig["state"] = state
+            raise Violation(
+                sig,
+                "corruption %s at %s (tree %s): walker says %r; _check() -> "
+                "%s, check() -> %s; shape before %r" % (
+                    ckind, pos, state, problems, ra, rb, w0.shape))
     ctx.nontriv((impl, kind, ckind, pos, tuple(classes), w0.shape))
     ctx.interleaving((ckind, pos, tuple(classes), ra, rb))
